@@ -1,19 +1,19 @@
 CONSTANTS Urls <- UrlsC
           Texts <- TextsC
-          Cfgs <- OneCfg
+          Cfgs <- CfgsC
           RebuildOnlyIfChanged = FALSE
           FirstOfBatch = FALSE
           PullOnNull = TRUE
-          SaveReadsDisk = FALSE
-          TamperAllowed = FALSE
+          SaveReadsDisk = TRUE
+          TamperAllowed = TRUE
           IdentsAccumulate = FALSE
           ForgetIdentRecord = TRUE
           ConfigRebuilds = TRUE
           MaxMsgs = 4
-          MaxInFlight = 3
-          VersionGuard = TRUE
+          MaxInFlight = 1
+          VersionGuard = FALSE
           RefreshFromMemory = TRUE
 INIT LInit
 NEXT LNext
-INVARIANTS LastWord
+INVARIANTS LastWordUnlessOverlapped
 CHECK_DEADLOCK FALSE
